@@ -13,6 +13,7 @@
 (***************************************************************************)
 EXTENDS FileStructure
 
+
 BookKeys == {NameSize, NamePrev, NameXRefStm, NameType, NameW, NameIndex, NameLength, NameFilter, NameDecodeParms}
 
 IsBookObj(o) ==
